@@ -888,6 +888,8 @@ def c12_extra(ctx, cases, for_c08=False):
         elif not c & 16:
             w = "C08: an ignored pre-assigned participant is not rated by the rank of its course in the ORIGINAL choice list (ext_quality_okb: " \
                 "AssignmentQualityInfo recomputed declaratively from the raw export in Coq)"
+        elif not for_c08 and not c & 64:
+            w = "C12: a participant of the problem has no valid choice and instructs no course of the problem (involved_okb on the implementation's output)"
         elif not for_c08 and not c & 8:
             w = "C12: a document of the wrong kind / schema version / without or with several unselected tracks / with an unknown track was accepted"
         elif (c & 33) != 33:
